@@ -1918,7 +1918,7 @@ impl<'a, 'src: 'a> Compiler<'a, 'src> {
             self.expr(&assign_binary.rhs);
             self.emit_byte(binary_op, assign_binary.rhs.start());
 
-            self.property_set(access.prop.str(), self.class_attributes, access.end());
+            self.property_set(access.prop.str(), class, access.end());
           },
           _ => unreachable!("Unexpected expression on left hand side of assignment."),
         }
